@@ -55,7 +55,7 @@ func (r RemoveIntersections) processSchema(v *Visitor, schema *ast.Schema) (*ast
 	}
 
 	// the entry point follows the object that replaces the one it designates
-	if replacement, removed := r.objectsToRemove[schema.EntryPoint]; removed {
+	if replacement, removed := r.replacementOf(schema.EntryPoint); removed {
 		if array, isArray := r.arraysToFix[schema.EntryPoint]; isArray {
 			replacement = array
 		}
@@ -111,6 +111,27 @@ func (r RemoveIntersections) processObject(_ *Visitor, schema *ast.Schema, objec
 	return object, nil
 }
 
+// replacementOf returns the object that replaces a removed one. The replacement
+// can be removed too (an alias of an alias): the chain is followed until an
+// object that stays in the schema.
+func (r RemoveIntersections) replacementOf(name string) (ast.Object, bool) {
+	replacement, removed := r.objectsToRemove[name]
+	if !removed {
+		return ast.Object{}, false
+	}
+
+	for i := 0; i < len(r.objectsToRemove); i++ {
+		next, alsoRemoved := r.objectsToRemove[replacement.Name]
+		if !alsoRemoved || next.Name == replacement.Name {
+			break
+		}
+
+		replacement = next
+	}
+
+	return replacement, true
+}
+
 func (r RemoveIntersections) processStruct(_ *Visitor, _ *ast.Schema, def ast.Type) (ast.Type, error) {
 	str := def.AsStruct()
 	for i, field := range str.Fields {
@@ -127,7 +148,7 @@ func (r RemoveIntersections) processStruct(_ *Visitor, _ *ast.Schema, def ast.Ty
 				def.AsStruct().Fields[i].Type = newType
 			}
 
-			if obj, ok := r.objectsToRemove[field.Type.AsRef().ReferredType]; ok {
+			if obj, ok := r.replacementOf(field.Type.AsRef().ReferredType); ok {
 				retype(ast.NewRef(obj.SelfRef.ReferredPkg, obj.SelfRef.ReferredType))
 			}
 			if obj, ok := r.arraysToFix[field.Type.AsRef().ReferredType]; ok {
